@@ -301,6 +301,11 @@ func (fr *Frame) frameObligations(fc *FuncContract) {
 		if m.ghosts[g] || g == "held" && len(fc.Holds) > 0 {
 			continue
 		}
+		if g == "sends" {
+			// the builtin counter of channel sends executed by the function itself: an event
+			// log, not state a modifies clause has to list
+			continue
+		}
 		changedByAt := false
 		for _, ga := range fc.GhostAts {
 			if ga.Var == g {
